@@ -172,7 +172,12 @@ def _pchip_derivatives(
     h_l, h_r = h[:-1], h[1:]
 
     mask_same_sign = (delta_l * delta_r) > 0  # excludes zeros + sign changes
-    dh = _weighted_harmonic_mean(delta_l, delta_r, h_l, h_r)
+    # Masked knots get harmless secants BEFORE the division: dividing by a zero
+    # secant (flat segment) or by w_l/delta_l + w_r/delta_r == 0 (symmetric peak)
+    # and masking afterwards gives 0 * inf = nan in the backward pass.
+    safe_l = torch.where(mask_same_sign, delta_l, torch.ones_like(delta_l))
+    safe_r = torch.where(mask_same_sign, delta_r, torch.ones_like(delta_r))
+    dh = _weighted_harmonic_mean(safe_l, safe_r, h_l, h_r)
     d[1:-1] = torch.where(mask_same_sign, dh, torch.zeros_like(dh))
 
     # Endpoints (one-sided + limiter)
